@@ -54,6 +54,17 @@ def answers_for(lst: List[str]) -> List[Dict[str, Any]]:
     a += [{"kind": "error", "code": c, "msg": m} for c, m in
           ((-32602, "Unsupported protocol version"), (-32602, "bad params"), (-32603, "boom"), (-32000, "closed"),
            (-32601, "no such method"), (-32008, "version mismatch"), (401, "unauthorized"), (-32001, "timeout"))]
+    # error answers that carry the server's own list in error.data (the specification's example for a version mismatch),
+    # from a server that goes on answering: whatever the client does with that list, an initialize it sends afterwards
+    # is answered with a version the caller never offered
+    unoffered = [v for v in UNIVERSE if v not in lst] + ["2099-12-31"]
+    for code, msg in ((-32602, "Unsupported protocol version"), (-32008, "version mismatch"), (-32603, "boom")):
+        a.append({"kind": "error", "code": code, "msg": msg, "then": unoffered[0],
+                  "data": {"supported": [unoffered[0], lst[-1]], "requested": lst[0]}})
+    a.append({"kind": "error", "code": -32602, "msg": "Unsupported protocol version", "then": unoffered[-1],
+              "data": {"supported": [lst[0], unoffered[-1]], "requested": lst[0]}})
+    a.append({"kind": "error", "code": -32602, "msg": "unsupported PROTOCOL VERSION", "then": unoffered[0],
+              "data": {"supported": list(lst) + unoffered[:1]}})
     a.append({"kind": "silence"})
     a.append({"kind": "late"})       # answer after the deadline
     a.append({"kind": "distractors_then", "v": lst[0]})
@@ -137,7 +148,10 @@ def build_answer(ans: Dict[str, Any], rid) -> Any:
             r = {}
         return {"jsonrpc": "2.0", "id": rid, "result": r}
     if ans["kind"] == "error":
-        return {"jsonrpc": "2.0", "id": rid, "error": {"code": ans["code"], "message": ans["msg"]}}
+        err = {"code": ans["code"], "message": ans["msg"]}
+        if "data" in ans:
+            err["data"] = ans["data"]
+        return {"jsonrpc": "2.0", "id": rid, "error": err}
     return None
 
 
@@ -207,6 +221,13 @@ def exec_case(ctx, case: Dict[str, Any], shared_list: Any = None) -> None:
                 pipe.srv_send.send_nowait(parse_message(wire))
             except Exception as e:  # noqa
                 obs["unbuildable"] = repr(e)
+            if ans.get("then"):
+                # the server stays up: any further initialize is answered with the version named by the case
+                while True:
+                    nxt = await pipe.srv_recv.receive()
+                    if getattr(nxt, "method", None) == "initialize" and getattr(nxt, "id", None) is not None:
+                        obs["further_initialize"] = obs.get("further_initialize", 0) + 1
+                        pipe.srv_send.send_nowait(parse_message(build_answer({"kind": "version", "v": ans["then"]}, nxt.id)))
 
         st = asyncio.create_task(server(), name="server")
         t0 = loop.time()
